@@ -280,4 +280,5 @@ func TestC15(t *testing.T) {
 	defer s.End()
 	hx.Run(s, c15Writer, s.N(3000, 30000))
 	hx.Run(s, c15Fault, s.N(1500, 15000))
+	hx.Run(s, c15Qualified, s.N(1500, 15000))
 }
